@@ -116,6 +116,16 @@ def diff_snapshots(before, after):
                         and not _is_pk_attr(obj, an) and not (v2 is None and _no_columns(obj, an)):
                     out.append('%s.%s was not loaded and now reads %r without having been loaded from the database'
                                % (_name(obj), an, v2))
+    for oid, (obj, st2, wb2, sp2, vals2) in ao.items():
+        # a row the failed call fetched is fine; an object left with database values but without the values
+        # themselves is not a load (no later read can complete it: Pony compares the fetched row with _dbvals_)
+        if not vals2 or '<dbvals>' not in vals2 or st2 in DEL:
+            continue
+        half = set(vals2['<dbvals>']) - set(vals2)
+        if half and oid in bo and bo[oid][4]:
+            half -= set(bo[oid][4].get('<dbvals>', ())) - set(bo[oid][4])
+        if half:
+            out.append('%s is half-loaded: database values without values for %s' % (_name(obj), sorted(half)))
     new_ids = set(ao) - set(bo)
     for oid in new_ids:
         obj, st2, wb2, sp2, vals2 = ao[oid]
